@@ -12,7 +12,7 @@ META = {
                   "and duplicates, T <= 2 (3) workers, B <= 2 (3): the call always returns Expected(req, skip) = one slot per request in request "
                   "order, slot i = SeqRead(req[i]); the shared-handle variant of the model violates it. TLC then generates configurations "
                   "(interface x threads x batch x request size around batch multiples and the 1000 / 5000 switches x skip x missing position x "
-                  "duplicates); the driver runs the six real interfaces repeatedly under CPU contention next to a sequential Archive::read_file "
+                  "duplicates); the driver runs the real interfaces (incl. the two parallel PatchChain constructors) repeatedly under CPU contention next to a sequential Archive::read_file "
                   "reference; TLC validates every returned slot against ParExtract!ExpectedFrom.",
     "level_note": "Schedules of the real thread pool are sampled (repeated runs, contention threads, thread counts 1..32, optional verif_yield hook), "
                   "not enumerated; exhaustiveness over schedules is a statement about the model only. Trusted: SHA-1 interning of contents by the driver.",
@@ -57,11 +57,15 @@ def run(ctx, cases=None):
             if len(samples) < 3 and 0 < r["n"] < 9:
                 samples.append({k2: r[k2] for k2 in ("ev", "case", "iface", "t", "b", "n", "skip", "miss", "dup", "run", "req", "call", "names", "toks")})
     ctx.notes.append(f"verif_yield hook present in the tree under test: {hook}")
+    if not hook:
+        ctx.notes.append("DEGRADED: the tree under test has no verif_yield hook; schedules were perturbed by contention threads only")
     cov = {
         "traces_validated_against_impl": res["traces"],
         "samples": samples,
         "evaluations": res["events"] - res["traces"],
         "configurations": ncases,
+        "schedule_perturbation": {"verif_yield_hook_active": bool(hook), "delay_function": "seeded per-thread xorshift: yield / 1-60us spin / 50-200us sleep at the start of every parallel task",
+                                  "contention_threads": 16 if ctx.thorough else 6, "runs_per_configuration": "6 (2 for |req| > 500)" if ctx.thorough else 2},
         "calls_by_interface_and_result": ifaces,
         "distinct_nontrivial": ncases,
         "rule": "one case = one configuration (interface, archive, threads, batch, |req|, skip, missing position, duplicates), distinct by set "
